@@ -14,7 +14,8 @@ ID = "C08"
 TAG = "types"
 EXTRACT = "FA/Extract/ExtractTypes.v"
 DRIVER = "driver_types.ml"
-COQ_FILES = ["FA/Proofs/TypeFollowFacts.v", "FA/Proofs/TypeFollowTypes.v", "FA/Properties/C08.v"]
+COQ_FILES = ["FA/Proofs/TypeFollowFacts.v", "FA/Proofs/TypeFollowTypes.v", "FA/Proofs/TypeFollowResolve.v",
+             "FA/Proofs/TypeFollowTyping.v", "FA/Properties/C08.v"]
 
 LEVEL = ("Coq theorems over the executable model: stream_item_types (Select -> result type, SelectMany -> element type, Where "
          "keeps the item type and accepts only bool), where_refuses_non_bool, binop_promotion, where_bool_shapes (C10); the "
